@@ -782,6 +782,8 @@ class FieldValueMultiple(FieldValueBase):
             if issubclass(validator.type, FieldValueComponentOption):
                 if value is False:
                     continue
+            if value is None and isinstance(field_value, FieldValueComponentParsableOptional):
+                continue  # an optional component that is not set is left out, not written as "None"
 
             components.append(getattr(self, name))
 
